@@ -270,8 +270,11 @@ func verifyPartChecksums(part part.Entity, calculated storage.ChecksumValues) er
 }
 
 func verifyObjectChecksums(object storage.Object, parts []part.Entity, partChecksums []storage.ChecksumValues) error {
-	// If single part, object checksums should match part checksums
-	if len(parts) == 1 {
+	// A single part written by PutObject carries the object's checksums as-is.
+	// Objects completed from a multipart upload or built by appends have an
+	// "<md5 of part md5s>-<n>" ETag even when they consist of one part, so they
+	// are verified like any other multipart object below.
+	if len(parts) == 1 && !strings.Contains(object.ETag, "-") {
 		calculated := partChecksums[0]
 
 		if object.ETag != "" && calculated.ETag != nil {
